@@ -332,7 +332,159 @@ theorem writes_table_nonempty :
     ("RegisteredDecoys.register", "reg", "Valid", "reg.Valid = true") ∈ fieldWrites ∧
     ("RegistrationManager.ingestRegistration", "reg", "Covert", "reg.Covert = covert") ∈ fieldWrites := by decide
 
+/-! #### the share request, the worker's treatment of `parseRegMessage`, the liveness branch -/
+
+/-- **One POST per share, no loop, no second attempt**: in the whole package `tryShareRegistrationOverAPI` is called once (the `go`
+statement of `ingestRegistration`, not in a loop), `executeHTTPRequest` is called once (in `tryShareRegistrationOverAPI`, not in a
+loop — hence not again on an error path either), the only function of package `http` that is called is the single `http.Post`
+of `executeHTTPRequest`, and neither sharing function contains a loop.  This is what `genShare` / `shareEvs` (one share event,
+whose outcome no function of the model reads: `peer_answer_irrelevant`) rest on. -/
+theorem share_request_sent_once_in_source :
+    shareCalls = [("RegistrationManager.ingestRegistration", "tryShareRegistrationOverAPI", "-", "go"),
+                  ("executeHTTPRequest", "http.Post", "-", "-"),
+                  ("tryShareRegistrationOverAPI", "executeHTTPRequest", "-", "-")] ∧ shareLoops = [] := by decide
+
+/-- **`parseRegMessage` answers an error only together with no registrations, and the worker ingests everything it answers
+otherwise** (`parse`: `none` ↔ error; `ingestWire`: `none` → nothing, `some regs` → every registration): the three return
+statements, the worker's two guards, and its loop over the registrations. -/
+theorem worker_ingests_what_parse_returns :
+    parseReturns = ["return nil, err", "return nil, firstErr", "return newRegs, nil"] ∧
+      workerCallsParse = true ∧
+      workerGuards = ["if err != nil { … continue }", "if len(newRegs) == 0 { … continue }"] ∧
+      workerIngestsAll = true := by decide
+
+/-- **The liveness branch looks at the boolean alone**: the statement after the probe is `if live { …; return }` without an else
+branch, and neither `live` nor `response` is used afterwards (`ingestReg`: `if needProbe r && o.live then (s1, probes)`; no
+function of the model reads `liveErr`: `verdict_error_irrelevant`). -/
+theorem liveness_branch_on_boolean_alone : livenessBranch = ["if live", "return", "no else"] := by decide
+
 end extracted
+
+/-! ### the liveness verdict is a pair, the peer's answer a step without feedback
+
+`LivenessTester.PhantomIsLive` answers `(live, err)`.  The real testers pair `true` with `ErrLiveHost` or the dial error,
+`false` with `NotLive`, and **either** boolean with `ErrCachedPhantom` when the verdict is served from a cache.
+`ingestRegistration` decides on the boolean alone.  How `(false, err)` with `err ≠ NotLive` is read: as "the phantom did
+not answer" — that is what the unchanged code does, it is pinned by the correspondence on the full product
+{true, false} × {usual companion, nil, ErrCachedPhantom, other error, context error, the other boolean's companion}, and it
+is what the property says (the condition is about the probe being answered, not about how the tester learnt it).
+
+The share request is `go tryShareRegistrationOverAPI(…)`: one POST whose outcome is logged and feeds back into nothing. -/
+
+theorem ingestReg_liveErr (c : Cfg) (o : Oracles) (s : RSt) (r : Reg) (e : Nat) :
+    ingestReg c { o with liveErr := e } s r = ingestReg c o s r := rfl
+
+theorem ingestReg_peer (c : Cfg) (o : Oracles) (s : RSt) (r : Reg) (p : Nat) :
+    ingestReg c { o with peer := p } s r = ingestReg c o s r := rfl
+
+theorem ingestRegs_congr (c : Cfg) (o o' : Oracles) (h : ∀ s r, ingestReg c o' s r = ingestReg c o s r) (rs : List Reg) (s : RSt) :
+    ingestRegs c o' s rs = ingestRegs c o s rs := by
+  induction rs generalizing s with
+  | nil => rfl
+  | cons r rs ih => simp only [ingestRegs, h, ih]
+
+theorem parse_liveErr (c : Cfg) (m : Msg) (o : Oracles) (e : Nat) :
+    parse c (.msg m { o with liveErr := e }) = parse c (.msg m o) := rfl
+
+theorem parse_peer (c : Cfg) (m : Msg) (o : Oracles) (p : Nat) :
+    parse c (.msg m { o with peer := p }) = parse c (.msg m o) := rfl
+
+/-- **The error component of the verdict is irrelevant**: whatever error accompanies the boolean — none, `NotLive`,
+`ErrLiveHost`, `ErrCachedPhantom`, a context error, anything else — the message is parsed, tracked, probed, shared,
+admitted and announced exactly as with the usual companion of that boolean. -/
+theorem verdict_error_irrelevant (c : Cfg) (s : RSt) (m : Msg) (o : Oracles) (e : Nat) :
+    ingestWire c s (.msg m { o with liveErr := e }) = ingestWire c s (.msg m o) := by
+  unfold ingestWire
+  rw [parse_liveErr]
+  cases parse c (.msg m o) with
+  | none => rfl
+  | some regs => exact ingestRegs_congr c o _ (fun s r => ingestReg_liveErr c o s r e) regs s
+
+/-- **The peer's answer is irrelevant**: 2xx, 4xx, 5xx, a connection closed without reply, a slow or an unreachable peer —
+nothing the station does with the message (in particular no further share request) depends on it. -/
+theorem peer_answer_irrelevant (c : Cfg) (s : RSt) (m : Msg) (o : Oracles) (p : Nat) :
+    ingestWire c s (.msg m { o with peer := p }) = ingestWire c s (.msg m o) := by
+  unfold ingestWire
+  rw [parse_peer]
+  cases parse c (.msg m o) with
+  | none => rfl
+  | some regs => exact ingestRegs_congr c o _ (fun s r => ingestReg_peer c o s r p) regs s
+
+theorem selectorFam_liveErr {o : Oracles} (hsel : SelectorFam o) (b : Bool) (e : Nat) :
+    SelectorFam { o with live := b, liveErr := e } :=
+  ⟨fun ph rnd h => hsel.v4 ph rnd h, fun ph rnd h => hsel.v6 ph rnd h⟩
+
+/-- **A live verdict never admits**, for every error component: an IPv4 registration that was not pre-scanned is not
+admitted when the tester's boolean says the phantom answered — fresh (`ErrLiveHost`, a dial error), served from the cache
+(`ErrCachedPhantom`), or with any other error or none. -/
+theorem live_verdict_never_admitted (c : Cfg) (s : RSt) (m : Msg) (o : Oracles) (f : Fam) (hsel : SelectorFam o) (e : Nat)
+    (ph : Bytes) (rnd : Bool) (hs : selOf o f = some (ph, rnd))
+    (h4 : isV4 ((overrideOf m f).getD ph) = true) (hps : m.prescanned = false) :
+    ¬ admitted c s m { o with live := true, liveErr := e } f := by
+  apply flip_liveness c s m _ f (selectorFam_liveErr hsel true e) ph rnd _ h4 hps rfl
+  cases f <;> exact hs
+
+/-- … and a live verdict leaves no trace beyond the probe: nothing is shared or announced for that registration, and it
+is not returned for connections (on a fresh registry) -/
+theorem live_verdict_not_visible (c : Cfg) (m : Msg) (o : Oracles) (f : Fam) (hsel : SelectorFam o) (e : Nat)
+    (ph : Bytes) (rnd : Bool) (hs : selOf o f = some (ph, rnd))
+    (h4 : isV4 ((overrideOf m f).getD ph) = true) (hps : m.prescanned = false)
+    (r : Reg) (hr : regOf c m { o with live := true, liveErr := e } f = some r) :
+    connectable (ingestWire c CJ.Registry.init (.msg m { o with live := true, liveErr := e })).1 r = false ∧
+      Ev.announce r ∉ (ingestWire c CJ.Registry.init (.msg m { o with live := true, liveErr := e })).2 := by
+  have hsel' := selectorFam_liveErr hsel true e
+  have hs' : selOf { o with live := true, liveErr := e } f = some (ph, rnd) := by cases f <;> exact hs
+  apply never_visible_otherwise c _ m _ f hsel' _ r hr
+  · rintro ⟨e', he', _⟩
+    have : get CJ.Registry.init (keyOf r) = none := by
+      unfold CJ.Ingest.get CJ.Registry.init; exact Std.HashMap.getElem?_empty
+    rw [this] at he'; cases he'
+  · cases hb : admitB c m { o with live := true, liveErr := e } f
+    · rfl
+    · have := (admitB_iff_conditions c m _ f).mp hb
+      obtain ⟨ph', rnd', hs'', _, _, _, hl⟩ := this.selected
+      rw [hs'] at hs''; cases hs''
+      have := hl h4 hps
+      cases this
+
+/-- **A "not live" boolean passes the probe whatever error comes with it** (the reading of `(false, err ≠ NotLive)`): the
+admission of the message is that of the same message with the plain `(false, NotLive)` verdict. -/
+theorem not_live_verdict_reading (c : Cfg) (s : RSt) (m : Msg) (o : Oracles) (f : Fam) (e : Nat) :
+    admitted c s m { o with live := false, liveErr := e } f ↔ admitted c s m { o with live := false } f := by
+  have h := verdict_error_irrelevant c s m { o with live := false } e
+  have hreg : regOf c m { o with live := false, liveErr := e } f = regOf c m { o with live := false } f := by
+    cases f <;> rfl
+  unfold admitted
+  rw [show ({ o with live := false, liveErr := e } : Oracles) = { ({ o with live := false } : Oracles) with liveErr := e } from rfl,
+    h]
+  rw [show ({ ({ o with live := false } : Oracles) with liveErr := e } : Oracles) = { o with live := false, liveErr := e } from rfl, hreg]
+
+/-- replace the peer's answer in every message by an arbitrary one -/
+def withPeer (g : Wire → Nat) : Wire → Wire
+  | .garbage => .garbage
+  | .msg m o => .msg m { o with peer := g (.msg m o) }
+
+theorem ingestWire_withPeer (c : Cfg) (s : RSt) (g : Wire → Nat) (w : Wire) :
+    ingestWire c s (withPeer g w) = ingestWire c s w := by
+  cases w with
+  | garbage => rfl
+  | msg m o => exact peer_answer_irrelevant c s m o _
+
+theorem run_withPeer (c : Cfg) (g : Wire → Nat) (ws : List Wire) (s : RSt) :
+    run c s (ws.map (withPeer g)) = run c s ws := by
+  induction ws generalizing s with
+  | nil => rfl
+  | cons w ws ih => simp only [List.map_cons, run_cons, ingestWire_withPeer, ih]
+
+/-- **A share is attempted at most once per client registration, whatever the peers answer**: in any run of messages from
+any registry and under any assignment of peer behaviours to the messages, at most one share request is made for a
+registration (key) — the run does not depend on the answers at all, so no answer (an error status, a lost reply) can cause
+a second request. -/
+theorem share_attempted_at_most_once (c : Cfg) (s : RSt) (ws : List Wire) (g : Wire → Nat) (k : Key) :
+    run c s (ws.map (withPeer g)) = run c s ws ∧ (run c s (ws.map (withPeer g))).2.countP (isShareOf k) ≤ 1 := by
+  refine ⟨run_withPeer c g ws s, ?_⟩
+  rw [run_withPeer]
+  exact (share_at_most_once c s ws k).1
 
 /-! ### non-vacuity -/
 
